@@ -12,7 +12,7 @@ use marwood::vm::verif::GcMode;
 use serde_json::{json, Value};
 use std::collections::HashSet;
 
-pub const KINDS: [&str; 11] = [
+pub const KINDS: [&str; 13] = [
     "pairs",
     "vectors",
     "strings",
@@ -23,6 +23,8 @@ pub const KINDS: [&str; 11] = [
     "symbols",
     "bignums",
     "promises",
+    "eval-fresh-locals",
+    "toplevel-fresh-locals",
     "mixed",
 ];
 
@@ -38,6 +40,9 @@ fn garbage_expr(kind: &str) -> &'static str {
         "symbols" => "(string->symbol (string-append \"gsym-\" (number->string i)))",
         "bignums" => "(* 99999999999 99999999999 (+ i 1))",
         "promises" => "(force (delay (list i)))",
+        // code compiled again and again whose local variable names are new each time
+        "eval-fresh-locals" => "(let ((name (string->symbol (string-append \"tmp-\" (number->string i))))) (eval (list (list 'lambda (list name) (list 'cons name name)) i)))",
+        "toplevel-fresh-locals" => "(cons i i)",
         _ => "(begin (cons i i) (make-vector 3 i) (string-append \"a\" \"b\") ((lambda (x) (lambda () x)) i) (call/cc (lambda (k) i)) (string->symbol (string-append \"m-\" (number->string i))))",
     }
 }
@@ -123,10 +128,15 @@ fn run_loop(c: &LoopCase, iterations: u64) -> Result<LoopRun, String> {
         }
     }
     let before = sim.vm.verif_state().collections;
-    if c.kind == "toplevel-forms" {
+    if c.kind == "toplevel-forms" || c.kind == "toplevel-fresh-locals" {
         // the garbage is the code of successive top-level evaluations
         for i in 0..iterations {
-            let o = sim.eval_form(&format!("(cons {} {})", i, i));
+            let text = if c.kind == "toplevel-forms" {
+                format!("(cons {} {})", i, i)
+            } else {
+                format!("((lambda (loc{i} . rest{i}) (let ((in{i} loc{i})) (cons in{i} rest{i}))) {i})", i = i)
+            };
+            let o = sim.eval_form(&text);
             if !matches!(o.outcome, Outcome::Value(_)) {
                 return Err(format!("form failed: {}", o.outcome.brief()));
             }
@@ -180,6 +190,9 @@ fn eval_loop(c: &LoopCase) -> LoopEval {
     let b = run_loop(c, c.n * c.factor);
     match (a, b) {
         (Ok(a), Ok(b)) => {
+            if std::env::var("VERIF_C12_PRINT").is_ok() {
+                eprintln!("n={} {:?} collections={}\nn*{}={:?} collections={}", c.n, a.res, a.policy_collections, c.factor, b.res, b.policy_collections);
+            }
             let mut v = None;
             let fields = [
                 ("heap-capacity", a.res.heap_capacity, b.res.heap_capacity),
@@ -189,7 +202,26 @@ fn eval_loop(c: &LoopCase) -> LoopEval {
                 ("global-slots", a.res.global_slots, b.res.global_slots),
             ];
             for (name, x, y) in fields {
+                // capacities have a warm-up that depends on the collection cadence (the heap grows
+                // when the free list runs dry between two collection points): one growth step
+                // between n and 10n is not yet "keeps growing"; only if the capacity grows again
+                // between 10n and 30n is the heap not bounded. The other resources are exact.
+                let warmup_sensitive = name == "heap-capacity" || name == "stack-capacity";
+                let mut third = None;
+                if y > x && warmup_sensitive {
+                    match run_loop(c, c.n * c.factor * 3) {
+                        Ok(t) => {
+                            let z = if name == "heap-capacity" { t.res.heap_capacity } else { t.res.stack_capacity };
+                            if z <= y {
+                                continue;
+                            }
+                            third = Some(z);
+                        }
+                        Err(_) => continue,
+                    }
+                }
                 if y > x {
+                    let _ = third;
                     v = Some((
                         format!("C12 growth {} kind={}", name, c.kind),
                         format!(
@@ -242,7 +274,7 @@ pub fn run(tier: Tier, seed: u64, ev: &mut Evidence) -> Vec<Violation> {
                 let forms = *rng.pick(&[1u64, 1, 2, 7, 50]);
                 let chunk = *rng.pick(&[8192usize, 8192, 4096, 16384, 2048]);
                 let slice_budget = if rng.chance(1, 3) { Some(rng.range(50, 5000) as usize) } else { None };
-                let n = if *kind == "toplevel-forms" || *kind == "eval-code" { (*n / 4).max(500) } else { *n };
+                let n = if kind.starts_with("toplevel-") || kind.starts_with("eval-") { (*n / 4).max(500) } else { *n };
                 cases.push(LoopCase {
                     kind: kind.to_string(),
                     live,
